@@ -762,7 +762,7 @@ class Table(BlockToken):
 
     @classmethod
     def check_interrupts_paragraph(cls, lines):
-        if not cls.interrupt_paragraph:
+        if not cls.interrupt_paragraph or not cls.start(lines.peek()):
             return False
         anchor = lines.get_pos()
         result = cls.read(lines)
